@@ -148,10 +148,59 @@ def _json_dmg(dmg):
     return out
 
 
+def eval_late(item):
+    """repair() through every combination of {long-lived session that read the cache file earlier, fresh session} x
+    {whole project, explicit job_ids} x damage kind, for a job that entered the persistent cache AFTER the long-lived
+    session had read it: the state point is known from the cache file, so the job must be restored."""
+    import signac
+    from signac.errors import JobsCorruptedError  # noqa
+
+    _, session_kind, selection, damage = item
+    sps = [{"a": 1}] + BYSTANDERS
+    tpl = _template(sps, True)
+    viol = []
+    late_sp = {"late": True, "n": [1, 2]}
+    with scratch.fresh("c09l") as root:
+        d = os.path.join(root, "p")
+        shutil.copytree(tpl, d, symlinks=True)
+        old = signac.Project(d)
+        old.open_job(id=canon.job_id(sps[1])).statepoint()  # consults the cache file as it is now
+        other = signac.Project(d)
+        lj = other.open_job(late_sp).init()
+        lj.doc["late"] = 1
+        other.update_cache()
+        fn = os.path.join(d, "workspace", lj.id, SPFILE)
+        if damage == "delete":
+            os.remove(fn)
+        elif damage == "truncate":
+            with open(fn, "r+b") as f:
+                f.truncate(5)
+        else:
+            with open(fn, "wb") as f:
+                f.write(b'{"someone": "else"}')
+        p = old if session_kind == "long-lived" else signac.Project(d)
+        try:
+            p.repair(job_ids=[lj.id]) if selection == "job_ids" else p.repair()
+            outcome = "ok"
+        except Exception as e:  # noqa
+            outcome = f"{type(e).__name__}: {e}"
+        dam, val, why = classify_dir(os.path.join(d, "workspace"), lj.id)
+        if dam or not canon.typed_eq(val, late_sp) or outcome != "ok":
+            viol.append({"sig": {"kind": "repair-does-not-restore", "late_cache_entry": True, "selection": selection,
+                                 "session": session_kind},
+                         "scenario": "late", "input": {"late": True, "session": session_kind, "selection": selection, "damage": damage},
+                         "expected": "job restored from the persistent cache", "observed": f"{outcome}; directory now: {why}",
+                         "msg": f"a job listed in the cache file ({damage} state point): repair({'job_ids=[id]' if selection == 'job_ids' else ''}) "
+                                f"through a {session_kind} session ended with {outcome}; directory now: {why}"})
+    return {"cls": f"late:{session_kind}:{selection}", "viol": viol, "n": 1, "nt": f"late|{session_kind}|{selection}|{damage}"}
+
+
 def evaluate(item):
     import signac
     from signac.errors import JobsCorruptedError
 
+    if item and item[0] == "late":
+        return eval_late(item)
     sps, cache, dmg = item[:3]
     order = item[3] if len(item) > 3 else "sorted"
     with env.listing_order(order):
@@ -381,6 +430,10 @@ def typed_twins(sp):
 def universe(tier):
     quick = tier == "quick"
     shapes = SHAPES
+    for session_kind in ("long-lived", "fresh"):
+        for selection in ("all", "job_ids"):
+            for damage in ("delete", "truncate", "replace"):
+                yield ("late", session_kind, selection, damage)
     for cache in (False, True):
         for sp in shapes:
             sps = [sp] + BYSTANDERS
@@ -442,6 +495,8 @@ def run(ctx):
 
 def replay(payload, ctx):
     inp = payload["input"]
+    if inp.get("late"):
+        return eval_late(("late", inp["session"], inp["selection"], inp["damage"]))["viol"]
     dmg = []
     for j, k, a in inp["damage"]:
         if k == "byte":
